@@ -298,7 +298,7 @@ func c14Check(c *harness.Ctx) {
 func init() {
 	harness.Register(&harness.Check{
 		Property: "C14", Level: "exploration", NeedsConc: true, QuickS: 120, ThoroughS: 900,
-		Rule:   "product of local AS {1,23456,64512,65535,65536,4200000000,2^32-1} x hold {0,3,90,65535} x router id {0.0.0.1,10.0.0.1,255.255.255.255} x a capability set, plus representative configurations x all capability lists of length <=2 (quick) / <=3 (thorough) over codes {0,1,65,69,255} x value lengths {0,1,4,255}, totals around the 255-octet limit, up to 40 capabilities, unrepresentable values (256, 300, 65542 bytes) and totals; each case is one real connection (both directions) whose first message is parsed by an independent strict OPEN parser; all cases non-trivial, distinct by configuration",
+		Rule:   "product of local AS {1,23456,64512,65535,65536,4200000000,2^32-1} x hold {0,3,90,65535} x router id {0.0.0.1,10.0.0.1,255.255.255.255} x a capability set, plus representative configurations x all capability lists of length <=2 (quick) / <=3 (thorough) over codes {0,1,65,69,255} x value lengths {0,1,4,255}, totals around the 255-octet limit, up to 40 capabilities, unrepresentable values (256, 300, 65542 bytes) and totals; plus the OPEN of a second connection (after a session with another hold time; with the plugin returning the same capability slice again, which corebgp must not have modified); each case is one real connection (both directions) whose first message is parsed by an independent strict OPEN parser; all cases non-trivial, distinct by configuration",
 		Assume: []string{"default schedule; virtual network (A3)", "for unrepresentable capability lists only well-formedness of what is written is judged (property: no malformed OPEN)"},
 		Run:    c14Check,
 		Replay: func(c *harness.Ctx, raw json.RawMessage) {
